@@ -195,4 +195,22 @@ def aaSpec (o : Nat) : List Nat :=
 /-- the generated amino-acid table: 20 states, `B = D|N`, `Z = E|Q`, everything else missing -/
 theorem aa_table : ∀ o, o < 128 → aaPartialCode true o = some (aaSpec o) := by decide
 
+/-- amino-acid tip state: the letter's position in `aaOrder` (either case), `20` = missing for everything else
+    — in particular for the ambiguity codes `B`, `Z`, `X`, `J` and for `*`, `?`, `-` -/
+def aaPlainState (o : Nat) : Nat :=
+  let u := upperCode o
+  if aaOrder.contains u then aaOrder.idxOf u else 20
+
+/-- `compress_alignment_states` on amino acids (`clamp(encoding, max=20)`) -/
+theorem aa_tipstate_table : ∀ o, o < 128 → aaTipStateCode o = some (aaPlainState o) := by decide
+
+/-- with `use_ambiguities = False` the amino-acid tip vector is exactly `stateVec` of the tip state: `B`, `Z`, `X`, `J`
+    are then MISSING in both representations (and with ambiguities on, `aa_table` gives `B = D|N`, `Z = E|Q`, `X`/`J` = all) -/
+theorem aa_noamb_table : ∀ o, o < 128 →
+    aaPartialCode false o = some (List.ofFn (stateVec (α := Nat) (S := 20) (aaPlainState o))) := by decide
+
+example : aaPartialCode true 66 /- B -/ = some [0,0,1,0,0,0,0,0,0,0,0,1,0,0,0,0,0,0,0,0] ∧
+    aaPartialCode false 66 = some (List.replicate 20 1) ∧ aaTipStateCode 66 = some 20 ∧
+    aaPartialCode true 74 /- J -/ = some (List.replicate 20 1) ∧ aaTipStateCode 120 /- x -/ = some 20 := by decide
+
 end TTProps.C01
